@@ -19,25 +19,38 @@ def main():
     ap.add_argument('--suite', action='store_true', help='also run the repository test-suite on each mutant')
     ap.add_argument('--tier', default='quick')
     ap.add_argument('--only')
+    ap.add_argument('--seeded', action='store_true', help='use seeded/<ID>-*/patch.diff instead of tools/mutants.json')
     ap.add_argument('--seed', default='1')
     a = ap.parse_args()
     muts = json.load(open(os.path.join(VERIF, 'tools', 'mutants.json')))
     results = []
     for pid in a.props:
-        for m in muts.get(pid, []):
+        if a.seeded:
+            sd = os.path.join(VERIF, 'seeded')
+            cand = [{'name': n, 'patch': os.path.join(sd, n, 'patch.diff')} for n in sorted(os.listdir(sd)) if n.startswith(pid + '-')]
+        else:
+            cand = muts.get(pid, [])
+        for m in cand:
             if a.only and a.only != m['name']:
                 continue
             d = tempfile.mkdtemp(prefix='mut_', dir='/dev/shm')
             try:
                 subprocess.run(['rsync', '-a', '--exclude', '.git', '/repo/', d + '/'], check=True)
-                path = os.path.join(d, m['file'])
-                src = open(path).read()
-                if src.count(m['old']) < 1:
-                    print(f'{pid} {m["name"]}: pattern not found', flush=True)
-                    results.append((pid, m['name'], 'pattern-not-found', None))
-                    continue
-                new = src.replace(m['old'], m['new'], m.get('count', 1))
-                open(path, 'w').write(new)
+                if 'patch' in m:
+                    r = subprocess.run(['patch', '-p1', '-s', '-i', m['patch']], cwd=d, capture_output=True, text=True)
+                    if r.returncode != 0:
+                        print(f'{pid} {m["name"]}: patch does not apply: {r.stdout[-300:]}', flush=True)
+                        results.append((pid, m['name'], 'patch-failed', None))
+                        continue
+                else:
+                    path = os.path.join(d, m['file'])
+                    src = open(path).read()
+                    if src.count(m['old']) < 1:
+                        print(f'{pid} {m["name"]}: pattern not found', flush=True)
+                        results.append((pid, m['name'], 'pattern-not-found', None))
+                        continue
+                    new = src.replace(m['old'], m['new'], m.get('count', 1))
+                    open(path, 'w').write(new)
                 suite = None
                 if a.suite:
                     env = dict(os.environ, PYTHONPATH=d, PYTHONHASHSEED='0')
